@@ -65,6 +65,8 @@ def build_leaf(spec):
             params["target-throughput"] = f"{tp['value']} {tp['unit']}"
         else:
             params["target-interval"] = tp["value"]
+    if spec.get("tolerant"):
+        params["ignore-response-error-level"] = "non-fatal"
     op = track.Operation(spec["name"] + "-op", spec.get("op_type", "sim-op"), params={"task": spec["name"]}, param_source="sim-source")
     return track.Task(
         spec["name"],
